@@ -166,7 +166,7 @@ impl<'a, R: BufRead> LogCat2DltMsgIterator<'a, R> {
             standard_header: DltStandardHeader {
                 htyp: self.htyp,
                 mcnt: (index & 0xff) as u8,
-                len: self.len_wo_payload + (payload.len() as u16),
+                len: self.len_wo_payload.saturating_add(payload.len() as u16),
             },
             extended_header: Some(DltExtendedHeader {
                 verb_mstp_mtin: (3u8 << 1) | (2u8 << 4), // Control Resp., non verb
@@ -353,7 +353,7 @@ where
                             standard_header: DltStandardHeader {
                                 htyp: self.htyp,
                                 mcnt: (index & 0xff) as u8,
-                                len: self.len_wo_payload + (payload.len() as u16),
+                                len: self.len_wo_payload.saturating_add(payload.len() as u16),
                             },
                             extended_header: Some(DltExtendedHeader {
                                 verb_mstp_mtin: (1u8 << 0) /* | (0u8 << 1)*/ | (mtin << 4), // verb, log,
@@ -451,7 +451,7 @@ where
                                 standard_header: DltStandardHeader {
                                     htyp: self.htyp,
                                     mcnt: (index & 0xff) as u8,
-                                    len: self.len_wo_payload + (payload.len() as u16),
+                                    len: self.len_wo_payload.saturating_add(payload.len() as u16),
                                 },
                                 extended_header: Some(DltExtendedHeader {
                                     verb_mstp_mtin: (1u8 << 0) /* | (0u8 << 1)*/ | (mtin << 4), // verb, log,
